@@ -187,7 +187,6 @@ CONFIGS = {
     "core_2words_dma2_bit5": (dict(core_only=2, nwords=2, bit=5), 14, 20, "qt"),
     "bypass_2words_dma2_bit0": (dict(with_bypass=True, nwords=2, dma=2, bit=0), 14, 24, "qt"),
     "ratio2_bypass_2words_dma2_bit0": (dict(with_bypass=True, nwords=2, dma=2, bit=0, data_width=8, port_dw=16, pre=4, post=4), 19, 24, "qt"),
-    "ratio2_nobypass_2words_dma2_bit0": (dict(with_bypass=False, nwords=2, dma=2, bit=0, data_width=8, port_dw=16, pre=4, post=4), 0, 24, "t"),
     "nobypass_4words_bit0": (dict(with_bypass=False, bit=0), 0, 18, "t"),
     "bypass_4words_bit0": (dict(with_bypass=True, bit=0), 0, 18, "t"),
     "bypass_4words_bit7": (dict(with_bypass=True, bit=7), 0, 18, "t"),
